@@ -2,16 +2,28 @@
 (* C09 - "every downstream operation targets the mapped database and        *)
 (* collection" (core/writer/channel_writer.go: mapDBAndCollectionName and    *)
 (* its use by the 18 op kinds, 4 api events, 5 data-message kinds and the    *)
-(* 3 readiness probes).                                                      *)
+(* 3 readiness probes).  The mapping functions live in NameMap.tla.          *)
 (*                                                                           *)
-(* One behaviour = one operation on a fresh writer (everything exists        *)
+(* Two kinds of behaviours:                                                  *)
+(*                                                                           *)
+(* (1) Spec: one operation on a fresh writer (everything exists              *)
 (* downstream): kind x source database {default, "", other} x mapping shape  *)
-(* {none, exact, wholedb, unrelated, both} x "the downstream rejects the     *)
-(* request".  The design part lists the downstream calls the handler makes   *)
-(* (probes, the request, probes of the re-check after a failure) with the    *)
-(* names it puts into them; the mapping function of the code returns the     *)
-(* FIRST matching entry in table iteration order, so every evaluation picks  *)
-(* nondeterministically among the matching entries.                          *)
+(* {none, exact, wholedb, unrelated, both, chain, swap} x "the downstream    *)
+(* rejects the request".  The design part lists the downstream calls the     *)
+(* handler makes (probes, the request, probes of the re-check after a        *)
+(* failure) with the names it puts into them; the mapping function of the    *)
+(* code returns the FIRST matching entry in table iteration order, so every  *)
+(* evaluation picks nondeterministically among the matching entries.         *)
+(*                                                                           *)
+(* (2) HSpec: HISTORIES on one live writer (the writer is shared by all      *)
+(* tasks of one downstream; ReplicateEntity.UpdateMapping calls              *)
+(* UpdateNameMappings whenever a further task starts).  State: the mapping   *)
+(* table in force (tab), the readiness bookkeeping keyed by source names     *)
+(* (ready: which probes are skipped).  Actions: HOp(kind, source database,   *)
+(* collection) and HUpd(entries) - entries of every shape, also re-targeting *)
+(* an existing key and chains / swaps (a mapping target that is itself a     *)
+(* mapping source).  Contract: every operation is routed by the mapping in   *)
+(* force WHEN IT IS HANDLED, applied once to the source names.               *)
 (*                                                                           *)
 (* Deviation switches (FALSE = as built):                                    *)
 (*   ExactFirst        an exact entry wins over a whole-database entry       *)
@@ -22,16 +34,29 @@
 (*   DbProbeWithColl   create/drop collection events map the database        *)
 (*                     together with their collection when probing it        *)
 (*   PrivMapped        operatePrivilege maps the names it carries            *)
+(* Defect class that the code as built does NOT have (FALSE = as built; TRUE *)
+(* shows that the history contract is not vacuous, WriterMap_HMemo.cfg):     *)
+(*   StaleMemo         the result of the mapping function is remembered per  *)
+(*                     source 'db.collection' and an update only forgets the *)
+(*                     keys it names                                         *)
 (* Contract: CallOK for every call, no bookkeeping under foreign names.      *)
-EXTENDS Integers, Sequences, FiniteSets, TLC, Json
+EXTENDS NameMap
 
-CONSTANTS ExactFirst, RelPartRouted, AlterIdxRouted, RecheckBySource, DbProbeWithColl, PrivMapped,
+CONSTANTS RelPartRouted, AlterIdxRouted, RecheckBySource, DbProbeWithColl, PrivMapped,
           SDBs,      \* source database spellings
           Shapes,    \* mapping shapes
-          KindsUsed  \* kinds enumerated
+          KindsUsed, \* kinds enumerated
+          \* histories
+          StaleMemo,
+          HKinds,    \* kinds used in histories
+          HSDBs,     \* source database spellings used in histories
+          HColls,    \* collections operated on in histories
+          HUpds,     \* update shapes (UpdEntries)
+          HUDBs,     \* source databases of the updates
+          Pattern,   \* "any" = any sequence of MaxSteps steps; else a word over O (operation) / U (update), see PatternOf
+          MaxSteps
 
 C1 == "c1"
-Norm(d) == IF d = "" THEN "default" ELSE d
 
 OpKinds    == {"createDatabase", "dropDatabase", "alterDatabase", "flush", "createIndex", "dropIndex", "alterIndex",
                "loadCollection", "releaseCollection", "loadPartitions", "releasePartitions", "createCredential",
@@ -59,84 +84,95 @@ OwnApi(k) ==
       [] k \in DMLKinds -> "ReplicateMessage"
       [] OTHER -> "-"
 
-(* ---------------- the mapping table and the two mapping functions -------- *)
-Entry(sd, sc, td, tc) == [sdb |-> sd, scoll |-> sc, tdb |-> td, tcoll |-> tc]
+(* ---------------- the mapping tables of the single-operation plans -------- *)
 MapTable(shape, n) ==
     CASE shape = "none"      -> {}
       [] shape = "exact"     -> {Entry(n, "c1", "tdb", "c2")}
       [] shape = "wholedb"   -> {Entry(n, "*", "tdb", "*")}
       [] shape = "unrelated" -> {Entry("zzz", "c1", "tdb", "c2"), Entry(n, "c9", "tdb", "c8")}
       [] shape = "both"      -> {Entry(n, "c1", "tdb", "c2"), Entry(n, "*", "wdb", "*")}
-
-Nm(d, c) == [db |-> d, coll |-> c]
-
-\* the statement: a collection-level entry, or else a whole-database entry, otherwise unchanged
-StmtMap(n, coll, tab) ==
-    LET ex == {e \in tab : e.sdb = n /\ e.scoll = coll /\ coll # ""}
-        wh == {e \in tab : e.sdb = n /\ e.scoll = "*"}
-    IN  IF ex # {} THEN LET e == CHOOSE e \in ex : TRUE IN Nm(e.tdb, e.tcoll)
-        ELSE IF wh # {} THEN LET e == CHOOSE e \in wh : TRUE IN Nm(e.tdb, coll)
-        ELSE Nm(n, coll)
-\* database-level operations (no collection): the whole-database entry if there is one; otherwise the statement
-\* is silent about a database that only has collection-level entries - identity or any of their target databases
-AllowedDb(n, tab) ==
-    LET wh == {e \in tab : e.sdb = n /\ e.scoll = "*"} IN
-    IF wh # {} THEN {e.tdb : e \in wh} ELSE {n} \cup {e.tdb : e \in {x \in tab : x.sdb = n}}
-
-\* mapDBAndCollectionName (channel_writer.go:1145-1163): the first entry in iteration order that matches
-CodeMapSet(n, coll, tab) ==
-    LET match == {e \in tab : e.sdb = n /\ (e.scoll = coll \/ e.scoll = "*" \/ coll = "")}
-        res(e) == IF e.scoll = coll THEN Nm(e.tdb, e.tcoll) ELSE Nm(e.tdb, coll)
-        ex == {e \in match : e.scoll = coll}
-    IN  IF match = {} THEN {Nm(n, coll)}
-        ELSE IF ExactFirst /\ ex # {} THEN {res(e) : e \in ex}
-        ELSE IF ExactFirst /\ coll = "" /\ \E e \in match : e.scoll = "*" THEN {res(e) : e \in {x \in match : x.scoll = "*"}}
-        ELSE {res(e) : e \in match}
+      \* a mapping target that is itself a mapping source: the mapping is applied once
+      [] shape = "chain"     -> {Entry(n, "*", "mid", "*"), Entry("mid", "*", "tdb", "*")}
+      [] shape = "swap"      -> {Entry(n, "c1", n, "c2"), Entry(n, "c2", n, "c1")}
 
 (* ---------------- design: the calls of one operation ---------------------- *)
 Call(api, routed, indb, coll, colls, parts) ==
     [api |-> api, routed |-> routed, indb |-> indb, coll |-> coll, colls |-> colls, parts |-> parts]
 
-\* WaitDatabaseReady on a fresh table: default / empty is always ready, otherwise describe the mapped database
-DbProbe(sdb, pd) == IF Norm(sdb) = "default" THEN <<>> ELSE <<Call("DescribeDatabase", "", pd.db, "", <<>>, <<>>)>>
-CollProbe(pc)    == <<Call("DescribeCollection", pc.db, "", pc.coll, <<>>, <<>>)>>
-PartProbe(pp, p) == <<Call("DescribePartition", pp.db, "", pp.coll, <<>>, <<p>>)>>
+\* readiness bookkeeping (dbInfos / collectionInfos / partitionInfos), keyed by SOURCE names; a key in rdy = "known created"
+DbKey(n)         == <<"db", n, "", "">>
+CollKey(n, c)    == <<"coll", n, c, "">>
+PartKey(n, c, p) == <<"part", n, c, p>>
+
+\* WaitDatabaseReady: default / empty is always ready; a known database is not probed; otherwise describe the mapped database
+DbProbeR(sdb, pd, rdy) ==
+    IF Norm(sdb) = "default" \/ DbKey(Norm(sdb)) \in rdy THEN <<>> ELSE <<Call("DescribeDatabase", "", pd.db, "", <<>>, <<>>)>>
+CollProbeR(sdb, coll, pc, rdy) ==
+    IF CollKey(Norm(sdb), coll) \in rdy THEN <<>> ELSE <<Call("DescribeCollection", pc.db, "", pc.coll, <<>>, <<>>)>>
+PartProbeR(sdb, coll, pp, p, rdy) ==
+    IF PartKey(Norm(sdb), coll, p) \in rdy THEN <<>> ELSE <<Call("DescribePartition", pp.db, "", pp.coll, <<>>, <<p>>)>>
 
 \* picks: one mapping evaluation per use (pd database probe, pc collection probe, p1/p2 partition probes, po request,
 \* rd/rc/rp the probes of a re-check under foreign names)
-Calls(kind, sdb, fail, pk) ==
+CallsR(kind, sdb, coll, fail, pk, rdy) ==
     LET n == Norm(sdb)
         foreign == Norm(pk.po.db) # n           \* the re-check keyed by the mapped database uses new table keys
         rechk(withPart) == IF RecheckBySource \/ ~foreign THEN <<>>
-                           ELSE DbProbe(pk.po.db, pk.rd) \o CollProbe(pk.rc) \o (IF withPart THEN PartProbe(pk.rp, "p1") ELSE <<>>)
+                           ELSE DbProbeR(pk.po.db, pk.rd, {}) \o CollProbeR(pk.po.db, coll, pk.rc, {})
+                                \o (IF withPart THEN PartProbeR(pk.po.db, coll, pk.rp, "p1", {}) ELSE <<>>)
     IN
-    CASE kind \in DbKinds -> <<Call(OwnApi(kind), "", pk.po.db, "", <<>>, <<>>)>>
+    CASE kind = "alterDatabase" -> DbProbeR(sdb, pk.pd, rdy) \o <<Call("AlterDatabase", "", pk.po.db, "", <<>>, <<>>)>>
+      [] kind \in DbKinds -> <<Call(OwnApi(kind), "", pk.po.db, "", <<>>, <<>>)>>
       [] kind \in NoNameKinds -> <<Call(OwnApi(kind), "", "", "", <<>>, <<>>)>>
       [] kind = "operatePrivilege" ->
             IF PrivMapped THEN <<Call("OperatePrivilege", "", pk.po.db, pk.po.coll, <<>>, <<>>)>>
-                          ELSE <<Call("OperatePrivilege", "", sdb, C1, <<>>, <<>>)>>
+                          ELSE <<Call("OperatePrivilege", "", sdb, coll, <<>>, <<>>)>>
       [] kind \in K2 ->
-            DbProbe(sdb, pk.pd) \o CollProbe(pk.pc) \o
+            DbProbeR(sdb, pk.pd, rdy) \o CollProbeR(sdb, coll, pk.pc, rdy) \o
             <<CASE kind = "flush" -> Call("Flush", pk.po.db, "", "", <<pk.po.coll>>, <<>>)
                 [] kind = "alterIndex" -> Call("AlterIndex", IF AlterIdxRouted THEN pk.po.db ELSE "", pk.po.db, pk.po.coll, <<>>, <<>>)
                 [] kind \in {"createIndex", "loadCollection"} -> Call(OwnApi(kind), pk.po.db, pk.po.db, pk.po.coll, <<>>, <<>>)
                 [] OTHER -> Call(OwnApi(kind), pk.po.db, "", pk.po.coll, <<>>, <<>>)>>
       [] kind = "loadPartitions" ->
-            DbProbe(sdb, pk.pd) \o CollProbe(pk.pc) \o PartProbe(pk.p1, "p1") \o PartProbe(pk.p2, "p2") \o
+            DbProbeR(sdb, pk.pd, rdy) \o CollProbeR(sdb, coll, pk.pc, rdy) \o PartProbeR(sdb, coll, pk.p1, "p1", rdy)
+            \o PartProbeR(sdb, coll, pk.p2, "p2", rdy) \o
             <<Call("LoadPartitions", pk.po.db, "", pk.po.coll, <<>>, <<"p1", "p2">>)>>
       [] kind = "releasePartitions" ->
-            DbProbe(sdb, pk.pd) \o CollProbe(pk.pc) \o PartProbe(pk.p1, "p1") \o PartProbe(pk.p2, "p2") \o
+            DbProbeR(sdb, pk.pd, rdy) \o CollProbeR(sdb, coll, pk.pc, rdy) \o PartProbeR(sdb, coll, pk.p1, "p1", rdy)
+            \o PartProbeR(sdb, coll, pk.p2, "p2", rdy) \o
             <<Call("ReleasePartitions", IF RelPartRouted THEN pk.po.db ELSE sdb, "", pk.po.coll, <<>>, <<"p1", "p2">>)>> \o
             (IF fail THEN rechk(TRUE) ELSE <<>>)
       [] kind \in {"createCollection", "dropCollection"} ->
-            DbProbe(sdb, pk.pd) \o <<Call(OwnApi(kind), pk.po.db, "", pk.po.coll, <<>>, <<>>)>>
+            DbProbeR(sdb, pk.pd, rdy) \o <<Call(OwnApi(kind), pk.po.db, "", pk.po.coll, <<>>, <<>>)>>
       [] kind \in {"createPartition", "dropPartition"} ->
-            DbProbe(sdb, pk.pd) \o CollProbe(pk.pc) \o <<Call(OwnApi(kind), pk.po.db, "", pk.po.coll, <<>>, <<"p1">>)>> \o
+            DbProbeR(sdb, pk.pd, rdy) \o CollProbeR(sdb, coll, pk.pc, rdy) \o
+            <<Call(OwnApi(kind), pk.po.db, "", pk.po.coll, <<>>, <<"p1">>)>> \o
             (IF fail THEN rechk(FALSE) ELSE <<>>)
       [] kind \in DMLKinds -> <<Call("ReplicateMessage", "", pk.po.db, pk.po.coll, <<>>, <<>>)>>
-      [] kind = "waitDatabase" -> DbProbe(sdb, pk.pd)
-      [] kind = "waitCollection" -> CollProbe(pk.pc)
-      [] kind = "waitPartition" -> PartProbe(pk.p1, "p1")
+      [] kind = "waitDatabase" -> DbProbeR(sdb, pk.pd, rdy)
+      [] kind = "waitCollection" -> CollProbeR(sdb, coll, pk.pc, rdy)
+      [] kind = "waitPartition" -> PartProbeR(sdb, coll, pk.p1, "p1", rdy)
+
+Calls(kind, sdb, fail, pk) == CallsR(kind, sdb, C1, fail, pk, {})
+
+\* the bookkeeping after a successful operation at a later timestamp than everything before it: probed objects are known;
+\* a recorded drop makes the next (later) operation probe again
+ReadyAfter(kind, sdb, coll, rdy) ==
+    LET n == Norm(sdb)
+        db == IF n = "default" THEN {} ELSE {DbKey(n)}
+        dc == db \cup {CollKey(n, coll)}
+    IN  CASE kind = "alterDatabase" -> rdy \cup db
+          [] kind = "dropDatabase" -> rdy \ {DbKey(n)}
+          [] kind \in K2 -> rdy \cup dc
+          [] kind \in {"loadPartitions", "releasePartitions"} -> rdy \cup dc \cup {PartKey(n, coll, "p1"), PartKey(n, coll, "p2")}
+          [] kind = "createCollection" -> rdy \cup db
+          [] kind = "dropCollection" -> (rdy \cup db) \ {CollKey(n, coll)}
+          [] kind = "createPartition" -> rdy \cup dc
+          [] kind = "dropPartition" -> (rdy \cup dc) \ {PartKey(n, coll, "p1")}
+          [] kind = "waitDatabase" -> rdy \cup db
+          [] kind = "waitCollection" -> rdy \cup {CollKey(n, coll)}
+          [] kind = "waitPartition" -> rdy \cup {PartKey(n, coll, "p1")}
+          [] OTHER -> rdy
 
 \* did the operation write bookkeeping under names that are not the source names?
 Polluted(kind, sdb, fail, pk) ==
@@ -145,10 +181,12 @@ Polluted(kind, sdb, fail, pk) ==
     /\ Norm(pk.po.db) # Norm(sdb)
 
 (* ---------------- contract ------------------------------------------------- *)
-CtxColl(kind) == IF kind \in DbKinds \cup NoNameKinds THEN "" ELSE C1
+CtxCollOf(kind, coll) == IF kind \in DbKinds \cup NoNameKinds THEN "" ELSE coll
+CtxColl(kind) == CtxCollOf(kind, C1)
 
-CallOK(c, kind, n, tab) ==
-    LET ctx == CtxColl(kind)
+\* c: a downstream call of an operation of this kind on source database n (normalised) and collection coll, table tab in force
+CallOKC(c, kind, n, coll, tab) ==
+    LET ctx == CtxCollOf(kind, coll)
         exp == StmtMap(n, ctx, tab)
     IN CASE c.api \in {"CreateDatabase", "DropDatabase", "AlterDatabase", "DescribeDatabase"} ->
                  Norm(c.indb) \in (IF ctx # "" THEN {exp.db} ELSE AllowedDb(n, tab))
@@ -156,26 +194,33 @@ CallOK(c, kind, n, tab) ==
          [] c.api \in {"OperatePrivilege", "ReplicateMessage"} -> Norm(c.indb) = exp.db /\ c.coll = exp.coll
          [] c.api = "Flush" -> Norm(c.routed) = exp.db /\ c.colls = <<exp.coll>> /\ (c.indb = "" \/ Norm(c.indb) = exp.db)
          [] OTHER -> Norm(c.routed) = exp.db /\ c.coll = exp.coll /\ (c.indb = "" \/ Norm(c.indb) = exp.db)
+CallOK(c, kind, n, tab) == CallOKC(c, kind, n, C1, tab)
 
-BadCalls(calls, kind, n, tab) == {i \in 1..Len(calls) : ~CallOK(calls[i], kind, n, tab)}
+BadCallsC(calls, kind, n, coll, tab) == {i \in 1..Len(calls) : ~CallOKC(calls[i], kind, n, coll, tab)}
+BadCalls(calls, kind, n, tab) == BadCallsC(calls, kind, n, C1, tab)
 
-VARIABLES hist, obs
-vars == <<hist, obs>>
+VARIABLES hist, obs,
+          tab,    \* histories: the mapping table in force
+          ready,  \* histories: readiness bookkeeping (source-name keys known as created)
+          memo    \* StaleMemo only: remembered results of the mapping function
+vars == <<hist, obs, tab, ready, memo>>
 
-Init == hist = <<>> /\ obs = [calls |-> <<>>, polluted |-> FALSE]
+Init == hist = <<>> /\ obs = [calls |-> <<>>, polluted |-> FALSE] /\ tab = {} /\ ready = {} /\ memo = {}
 
+(* ---------------- (1) one operation on a fresh writer ---------------------- *)
 Next ==
     /\ hist = <<>>
+    /\ UNCHANGED <<tab, ready, memo>>
     /\ \E kind \in KindsUsed, sdb \in SDBs, shape \in Shapes, fail \in BOOLEAN :
          /\ (fail => kind \in FailKinds)
          /\ LET n == Norm(sdb)
-                tab == MapTable(shape, n)
-                S1 == CodeMapSet(n, C1, tab)
-                S0 == CodeMapSet(n, "", tab)
-            IN \E pd \in (IF kind \in {"createCollection", "dropCollection"} /\ ~DbProbeWithColl THEN S0 ELSE S1),
+                t == MapTable(shape, n)
+                S1 == CodeMapSet(n, C1, t)
+                S0 == CodeMapSet(n, "", t)
+            IN \E pd \in (IF kind = "alterDatabase" \/ (kind \in {"createCollection", "dropCollection"} /\ ~DbProbeWithColl) THEN S0 ELSE S1),
                   pc \in S1, p1 \in S1, p2 \in S1,
                   po \in (IF kind \in DbKinds THEN S0 ELSE S1) :
-                 \E rd \in CodeMapSet(Norm(po.db), C1, tab), rc \in CodeMapSet(Norm(po.db), C1, tab), rp \in CodeMapSet(Norm(po.db), C1, tab) :
+                 \E rd \in CodeMapSet(Norm(po.db), C1, t), rc \in CodeMapSet(Norm(po.db), C1, t), rp \in CodeMapSet(Norm(po.db), C1, t) :
                    LET pk == [pd |-> pd, pc |-> pc, p1 |-> p1, p2 |-> p2, po |-> po, rd |-> rd, rc |-> rc, rp |-> rp] IN
                    /\ obs' = [calls |-> Calls(kind, sdb, fail, pk), polluted |-> Polluted(kind, sdb, fail, pk)]
                    /\ hist' = <<[op |-> "map", kind |-> kind, sdb |-> sdb, shape |-> shape, fail |-> fail]>>
@@ -183,10 +228,80 @@ Next ==
 Spec == Init /\ [][Next]_vars
 
 Contract ==
-    hist # <<>> =>
+    (hist # <<>> /\ hist[1].op = "map") =>
         LET st == hist[1] IN
         /\ BadCalls(obs.calls, st.kind, Norm(st.sdb), MapTable(st.shape, Norm(st.sdb))) = {}
         /\ ~obs.polluted
 
 PlanOut == Len(hist) = 1 => PrintT("PLAN " \o ToJson(hist))
+
+(* ---------------- (2) histories on one live writer -------------------------- *)
+\* entries handed to UpdateNameMappings in one call (a sequence, so that the plan lists them in a fixed order)
+Chain(n) == IF n = "default" THEN "other" ELSE "mid"
+UpdEntries(u, n) ==
+    CASE u = "exact1"    -> <<Entry(n, "c1", "tdb", "c2")>>
+      [] u = "exact2"    -> <<Entry(n, "c2", "tdb", "c7")>>
+      [] u = "retarget"  -> <<Entry(n, "c1", "wdb", "c1")>>                \* overwrites the key of exact1
+      [] u = "wholedb"   -> <<Entry(n, "*", "tdb", "*")>>
+      [] u = "wholedb2"  -> <<Entry(n, "*", "wdb", "*")>>                  \* overwrites the key of wholedb / chaindb
+      [] u = "unrelated" -> <<Entry("zzz", "c1", "tdb", "c2"), Entry(n, "c9", "tdb", "c8")>>
+      [] u = "chaindb"   -> <<Entry(n, "*", Chain(n), "*")>>               \* default.* -> other.*: the target is a source database
+      [] u = "swap"      -> <<Entry(n, "c1", n, "c2"), Entry(n, "c2", n, "c1")>>
+SeqSet(s) == {s[i] : i \in 1..Len(s)}
+
+PatternOf(w) == CASE w = "OUO" -> <<"O", "U", "O">> [] w = "UOUO" -> <<"U", "O", "U", "O">> [] w = "UO" -> <<"U", "O">> [] OTHER -> <<>>
+StepKind(i) == IF Pattern = "any" THEN "any" ELSE PatternOf(Pattern)[i]
+HDone == Len(hist) >= (IF Pattern = "any" THEN MaxSteps ELSE Len(PatternOf(Pattern)))
+
+\* StaleMemo: the remembered result, if there is one, replaces the evaluation
+MapEval(n, coll) ==
+    LET m == {x \in memo : x.n = n /\ x.coll = coll} IN
+    IF StaleMemo /\ m # {} THEN {x.res : x \in m} ELSE CodeMapSet(n, coll, tab)
+
+HStepRec(op, kind, sdb, coll, entries) == [op |-> op, kind |-> kind, sdb |-> sdb, coll |-> coll, entries |-> entries]
+
+HOp ==
+    /\ ~HDone /\ StepKind(Len(hist) + 1) \in {"any", "O"}
+    /\ \E kind \in HKinds, sdb \in HSDBs, coll \in HColls :
+         /\ (kind \in DbKinds \cup NoNameKinds => coll = C1)       \* the collection is not used: one representative
+         /\ LET n == Norm(sdb)
+                S1 == MapEval(n, coll)
+                S0 == MapEval(n, "")
+                dbUse == kind \in DbKinds \/ (kind \in {"createCollection", "dropCollection"} /\ ~DbProbeWithColl)
+            IN \E pd \in (IF kind = "alterDatabase" \/ (kind \in {"createCollection", "dropCollection"} /\ ~DbProbeWithColl) THEN S0 ELSE S1),
+                  pc \in S1, p1 \in S1, p2 \in S1,
+                  po \in (IF kind \in DbKinds THEN S0 ELSE S1) :
+                   LET pk == [pd |-> pd, pc |-> pc, p1 |-> p1, p2 |-> p2, po |-> po, rd |-> po, rc |-> po, rp |-> po] IN
+                   \* a remembered result is the same for every evaluation of one operation
+                   /\ (StaleMemo => pc = p1 /\ p1 = p2 /\ (kind \notin DbKinds => po = pc) /\ (~dbUse => pd = pc))
+                   /\ obs' = [calls |-> CallsR(kind, sdb, coll, FALSE, pk, ready), polluted |-> FALSE]
+                   /\ ready' = ReadyAfter(kind, sdb, coll, ready)
+                   /\ memo' = IF ~StaleMemo THEN memo
+                              ELSE memo \cup (IF kind \in DbKinds \cup NoNameKinds THEN {} ELSE {[n |-> n, coll |-> coll, res |-> pc]})
+                                        \cup (IF kind \in DbKinds THEN {[n |-> n, coll |-> "", res |-> po]} ELSE {})
+                   /\ hist' = Append(hist, HStepRec("hmap", kind, sdb, coll, <<>>))
+    /\ UNCHANGED tab
+
+HUpd ==
+    /\ ~HDone /\ StepKind(Len(hist) + 1) \in {"any", "U"}
+    /\ \E u \in HUpds, n \in HUDBs :
+         LET es == UpdEntries(u, n) IN
+         /\ tab' = Override(tab, SeqSet(es))
+         \* UpdateNameMappings as built: nothing else; StaleMemo: only the keys named by the update are forgotten
+         /\ memo' = {x \in memo : ~\E i \in 1..Len(es) : es[i].sdb = x.n /\ es[i].scoll = x.coll}
+         /\ hist' = Append(hist, HStepRec("upd", "", "", "", es))
+    /\ obs' = [calls |-> <<>>, polluted |-> FALSE]
+    /\ UNCHANGED ready
+
+HNext == HOp \/ HUpd
+HSpec == Init /\ [][HNext]_vars
+
+\* every operation is routed by the mapping in force when it is handled (tab is not changed by the operation itself)
+HContract ==
+    (hist # <<>> /\ hist[Len(hist)].op = "hmap") =>
+        LET st == hist[Len(hist)] IN BadCallsC(obs.calls, st.kind, Norm(st.sdb), st.coll, tab) = {}
+
+HPlanOut == HDone => PrintT("PLAN " \o ToJson(hist))
+\* exhaustive design checks hide the history (bounded by the number of steps)
+HView == <<Len(hist), IF hist = <<>> THEN <<>> ELSE hist[Len(hist)], obs, tab, ready, memo>>
 =============================================================================
